@@ -494,7 +494,7 @@ def _small_case(rng):
     modes = ["genome", "genome", "cis"] + (["trans"] if nch >= 2 else [])
     mode = rng.choice(modes)
     if x0 is None and rng.random() < 0.25:
-        x0 = [rng.choice([1.0, 1.0, 0.5, 2.0, 0.75, 1.25, 3.0, 0.1, 0.0, None]) for _ in range(n)]
+        x0 = [rng.choice([1.0, 1.0, 0.5, 2.0, 0.75, 1.25, 3.0, 0.125, 0.0, None]) for _ in range(n)]
     elif x0 is not None and rng.random() < 0.3:
         x0 = [v * rng.choice([1.0, 1.0, 1.0, 2.0]) for v in x0]
     if rng.random() < 0.5:
@@ -509,7 +509,8 @@ def _small_case(rng):
             "blacklist": sorted(rng.sample(range(n), rng.choice([0, 0, 0, 0, 1, 2]) if n > 2 else 0)),
             "x0": x0,
             "tol": tol,
-            "max_iters": rng.randint(1, 6),
+            # exact rationals grow ~4x in length per sweep: long starting values get fewer sweeps
+            "max_iters": rng.randint(1, 5 if (vmax > 50 or x0 is not None) else 6),
             "rescale": rng.random() < 0.8}
     return {"n": n, "offsets": offs, "pixels": px, "opts": opts}
 
